@@ -1222,6 +1222,12 @@ const INNER: &[&str] = &[
     "&x",
     "x&",
     "&&",
+    // lists whose members resolve to a different number of selectors under a
+    // parent list (several `&`, one `&`, `&` only inside a pseudo argument)
+    "&:hover, & + &",
+    "& &, x",
+    ":not(&) x, y &",
+    "x, & + &, &-s",
 ];
 const INNER_SMALL: usize = 12;
 const INNER_MEDIUM: usize = 32;
